@@ -84,8 +84,8 @@ def xorSelect : List Nat → Nat → Nat
   | [], _ => 0
   | r :: rs, sel => (if sel % 2 = 1 then r else 0) ^^^ xorSelect rs (sel / 2)
 
-/-- Rank certificate for the stabilizer generators: `basisIdx` picks `n-k` generators,
-    `dual` is an independence certificate for them, and every generator is the xor of the
+/-- Rank certificate for the stabilizer generators: `basisIdx` picks `n-k` generators
+    (strictly increasing indices), `dual` is an independence certificate for them, and every generator is the xor of the
     picked ones selected by `combo` (so the picked ones span the row space). -/
 structure RankCert where
   basisIdx : List Nat
@@ -93,9 +93,16 @@ structure RankCert where
   combo : List Nat
   deriving Repr
 
+/-- the picked indices are strictly increasing (so the picked generators form a sublist
+    of the generators, in order, without repetition) -/
+def basisIdxSorted : List Nat → Bool
+  | a :: b :: rest => a < b && basisIdxSorted (b :: rest)
+  | _ => true
+
 def rankCertOK (c : MaskCode) (rc : RankCert) : Bool :=
   let basis := rc.basisIdx.map fun i => c.stabs.getD i 0
   rc.basisIdx.all (· < c.stabs.length) &&
+  basisIdxSorted rc.basisIdx &&
   basis.length + c.k == c.n &&
   dualOK c.n basis rc.dual &&
   rc.combo.length == c.stabs.length &&
